@@ -1,8 +1,8 @@
 """C13 — measurement-based inventory: estimation windows tile the simulated period.
 
 Lean: Props/C13.lean (C13, C13_complementary, C13_split_sum, C13_tiling, C13_tiling_any_rounding,
-C13_share, C13_volume, C13_windows_rows, C13_groups_cover) over Model/Window.lean, the code as
-repaired by /repo commits b848134 and eb03b8f.
+C13_share, C13_share_any_rounding, C13_volume, C13_windows_rows, C13_groups_cover) over
+Model/Window.lean, the code as repaired in /repo (see findings.d/C13.json).
 
 Tie to the code on every run:
   * whole survey tables (several sites, several components per site, repeated dates, surveys on the
@@ -15,6 +15,7 @@ Tie to the code on every run:
     two offsets of every interval must add up to the gap and lie in [0, gap] (the hypothesis of
     C13_tiling_any_rounding) and the larger measurement's share must be floor(g f) or ceil(g f)
     with f the exact value of the double (reference: the Lean model fed with the dyadic rational);
+    for f = k/1024 the helpers must equal the model's exact offsets bit for bit;
   * a direct oracle (tiling, share, volume, coverage) on the implementation's windows of every
     table, also for arbitrary doubles; the tiling verdict is cross-checked with the model's own
     `Tiles` predicate;
@@ -405,6 +406,30 @@ def confront(ctx, fs, label, share_ref=True):
     return failing
 
 
+def exact_grid(ctx, fs):
+    """dyadic factors k/1024: double arithmetic is exact, so the real helpers must agree with the
+    model's exact offsets for every gap and both conditions, bit for bit"""
+    drv = core.LeanDriver("drv_window")
+    for i in range(0, len(fs), 50):
+        part = fs[i:i + 50]
+        gaps, eT, eF, sT, sF = W.helper_offsets_many(part, 0, G_MAX)
+        lines = ["offs %d %d 0 %d" % (frac_of(f) + (G_MAX,)) for f in part]
+        ref = np.array([np.array(r.split(), dtype=np.int64) for r in drv.run(lines)])
+        impl = [eT, eF, sT, sF]
+        for j in range(4):
+            bad = ref[:, j::8] != impl[j]
+            if bad.any():
+                fi, gi = np.argwhere(bad)[0]
+                ctx.disagree("offsets-dyadic-grid", {"f": float(part[fi]), "gap": int(gaps[gi]),
+                                                      "which": ["endT", "endF", "startT", "startF"][j]},
+                             int(ref[:, j::8][fi, gi]), int(impl[j][fi, gi]))
+            # the model's own two forms (repaired / before the repairs) agree in exact arithmetic
+            if (ref[:, j::8] != ref[:, j + 4::8]).any():
+                ctx.broke("model: repaired offsets = original offsets in exact arithmetic", "driver output differs")
+        ctx.evaluations += 2 * len(gaps) * len(part)
+    ctx.count("dyadic_grid_factors", len(fs))
+
+
 def report_failing(ctx, failing, label):
     """turn failing (f, gap, ordering) triples of the helpers into concrete survey tables judged by
     the table oracle"""
@@ -481,6 +506,8 @@ def run(ctx):
     ctx.exhaustive = False  # the grid is enumerated completely; the property's domain (all reals) is not
     sub = grid if not ctx.quick else sorted(rng.sample(grid, 120) + [0.7, 0.8])
     scalar_crosscheck(ctx, sub)
+    dy = [k / 1024 for k in range(1025)]
+    exact_grid(ctx, dy if not ctx.quick else sorted(set(dy[::16] + rng.sample(dy, 60))))
     nrand = ctx.pick(300, 12000)
     rand = list(dict.fromkeys(NASTY + [rng.random() for _ in range(nrand)]
                               + [math.nextafter(k / 1000, rng.choice([0.0, 1.0])) for k in rng.sample(range(1, 1000), ctx.pick(40, 600))]))
